@@ -298,15 +298,30 @@ def run_text_family(ctx, runner, P, kind, family, files, path, with_oracle, stat
 TRR_KEYS = ("box", "vir", "pres", "x", "v", "f")
 
 
+LAYERS = {"x": ("box", "x"), "xv": ("box", "x", "v"), "xvf": ("box", "x", "v", "f")}
+
+
+def layer_patterns(nf):
+    """Every way nf frames can carry positions only / + velocities / + forces (nstxout, nstvout,
+    nstfout need not be equal: velocities and forces are written with some of the frames only)."""
+    return list(itertools.product(("x", "xv", "xvf"), repeat=nf))
+
+
+def per_frame(blocks):
+    return bool(blocks) and isinstance(blocks[0], (tuple, list))
+
+
 def gen_trr(rng, endian, double, natoms, nfr, blocks):
-    """Bytes of a TRR file as GROMACS writes it + per frame (header size, data size, header dict, data dict)."""
+    """Bytes of a TRR file as GROMACS writes it + per frame (header size, data size, header dict, data dict).
+    `blocks`: the blocks every frame carries (tuple of names), or one such tuple PER FRAME (frames of
+    different data sizes; each header announces its own frame's block sizes)."""
     real = "d" if double else "f"
     rs = 8 if double else 4
     out = b""
     frames = []
     for j in range(nfr):
         sz = {k: 0 for k in TRR_KEYS}
-        for k in blocks:
+        for k in (blocks[j] if per_frame(blocks) else blocks):
             sz[k] = 9 * rs if k in ("box", "vir", "pres") else natoms * 3 * rs
         ints = [0, 0, sz["box"], sz["vir"], sz["pres"], 0, 0, sz["x"], sz["v"], sz["f"], natoms, j * 10, 0]
         t, lam = j * 0.5, 0.25
@@ -322,7 +337,8 @@ def gen_trr(rng, endian, double, natoms, nfr, blocks):
                 vals[k] = np.array(v, dtype=np.float64).reshape((3, 3) if n == 9 and k in ("box", "vir", "pres") else (natoms, 3))
         out += hdr + data
         frames.append({"hs": len(hdr), "ds": len(data), "natoms": natoms, "step": j * 10, "time": t, "lambda": lam,
-                       "endian": endian, "double": double, "sizes": sz, "vals": vals, "end": len(out)})
+                       "endian": endian, "double": double, "sizes": sz, "vals": vals, "end": len(out),
+                       "blocks": [k for k in TRR_KEYS if sz[k]]})
     return out, frames
 
 
@@ -482,6 +498,66 @@ def trr_script_request(head, frames, log, total):
     return f"trr {head} {lay} {','.join(map(str, running)) or '-'} {total}"
 
 
+SPECIAL_LAYOUTS = [
+    (("box", "vir", "pres", "x", "v", "f"), ("x",)),
+    (("x",), ("box", "vir", "pres", "x", "v", "f"), ("x", "v")),
+    (("box", "x", "f"), ("box", "x"), ("box", "x", "f"), ("box", "x")),
+    (("box", "x"), ("box", "x"), ("box", "x"), ("box", "x", "v", "f")),
+]
+
+
+def nonuniform_plans(quick, sched=False):
+    """(endian, double, atoms, frames, per-frame block sets) of the TRR files whose frames have
+    different data sizes."""
+    out = []
+    n = 0
+    for nf in (2, 3, 4):
+        pats = [p for p in layer_patterns(nf) if len(set(p)) > 1]
+        for pi, pat in enumerate(pats):
+            if quick and nf == 4 and pi % 3 != (1 if sched else 0):
+                continue
+            bl = tuple(LAYERS[x] for x in pat)
+            for db in (False, True):
+                if quick and sched and db != bool(n % 2):
+                    continue            # interleavings, quick tier: the precision alternates with the pattern
+                ens = ("<>"[(n // 2 + db) % 2],) if quick else ("<", ">")
+                for en in ens:
+                    # x block of 600 / 360 / 240 bytes for 2 / 3 / 4 frames
+                    na = {2: 50, 3: 30, 4: 20}[nf] // (2 if db else 1)
+                    out.append((en, db, na, nf, bl))
+            n += 1
+    for si, bl in enumerate(SPECIAL_LAYOUTS):
+        for db in (False, True):
+            out.append(("<>"[(si + db) % 2], db, 24 if db else 48, len(bl), bl))
+    return out
+
+
+def layout_marks(frames, head, width, mids=True):
+    total = frames[-1]["end"]
+    P = {0, total}
+    dss = sorted({fr["ds"] for fr in frames})
+    marks = [head]
+    for fr in frames:
+        start = fr["end"] - fr["ds"] - fr["hs"]
+        d0 = start + fr["hs"]
+        marks += [d0, fr["end"]]
+        if mids:
+            P.add(start + fr["hs"] // 2)
+        off = d0
+        for k in TRR_KEYS:
+            if fr["sizes"][k]:
+                if mids:
+                    P.add(off + fr["sizes"][k] // 2)
+                off += fr["sizes"][k]
+                marks.append(off)
+        marks += [d0 + d for d in dss]      # the guard `size >= bytes_read + data_size` with another frame's size
+    for t in marks:
+        for dlt in range(-width, width + 1):
+            if 0 <= t + dlt <= total:
+                P.add(t + dlt)
+    return sorted(P)
+
+
 def run_trr(ctx, runner, G, path, rng, tier, stats):
     head = int(G.TRR_HEAD_SIZE)
     quick = tier == "quick"
@@ -509,18 +585,29 @@ def run_trr(ctx, runner, G, path, rng, tier, stats):
         for ci, (en, db) in enumerate(combos):
             if quick and (gi + ci) % 2:
                 continue
-            plans.append((en, db, na, nf, block_sets[(gi * 3 + ci) % len(block_sets)]))
+            plans.append((en, db, na, nf, block_sets[(gi * 3 + ci) % len(block_sets)], "every"))
+    # frames of DIFFERENT data sizes (velocities / forces written with some of the frames only:
+    # nstvout, nstfout != nstxout): every pattern of positions only / + velocities / + forces over
+    # 2, 3 and 4 frames (quick: every third 4-frame pattern), in both precisions, byte order
+    # alternating (thorough: all four combinations); the atom count makes the first frame(s) reach
+    # TRR_HEAD_SIZE so that the later, different frames are read while the file still grows
+    for en, db, na, nf, bl in nonuniform_plans(quick):
+        plans.append((en, db, na, nf, bl, "marks"))
     reqs, metas = [], []
     n_or_fail = 0
     max_every = 2600 if quick else 6000
-    for (en, db, na, nf, bl) in plans:
+    for (en, db, na, nf, bl, cutmode) in plans:
         data, frames = gen_trr(rng, en, db, na, nf, bl)
         total = len(data)
-        desc = {"endian": en, "double": db, "natoms": na, "frames": nf, "blocks": list(bl), "bytes": total}
+        desc = {"endian": en, "double": db, "natoms": na, "frames": nf, "blocks": [list(b) for b in bl] if per_frame(bl) else list(bl),
+                "bytes": total, "frame_data_bytes": [fr["ds"] for fr in frames]}
         ctx.dist(f"trr:{'double' if db else 'single'}:{'big' if en == '>' else 'little'}-endian")
+        ctx.dist("trr:frame data sizes " + ("differ" if len({fr["ds"] for fr in frames}) > 1 else "uniform"))
         # raw functions on every truncation of the first frame: exact header/data or an exception, never a torn value
         f0 = frames[0]
-        for c in range(0, f0["end"] + 1):
+        raw_cuts = range(0, f0["end"] + 1) if cutmode == "every" else \
+            sorted({m for m in layout_marks(frames, head, 2) if m <= f0["end"]} | set(range(0, f0["end"] + 1, 7)))
+        for c in raw_cuts:
             bio = io.BytesIO(data[:c])
             verdict = None
             try:
@@ -544,19 +631,29 @@ def run_trr(ctx, runner, G, path, rng, tier, stats):
             except Exception as ex:  # noqa: BLE001
                 verdict = f"unexpected {type(ex).__name__} from the TRR reading functions at cut {c}"
             stats["trr_raw"] += 1
-            ctx.count(("trr_raw", en, db, na, bl, c), nontrivial=True)
+            ctx.count(("trr_raw", en, db, na, nf, bl, c), nontrivial=True)
             if verdict:
                 n_or_fail += 1
                 if n_or_fail <= MAXV:
                     ctx.violation(f"C13 statement fails on the implementation (TRR functions): {verdict}",
                                   {"kind": "trr_raw", "case": desc, "file_hex": data[:f0['end']].hex(), "cut": c}, True)
         # the driven loop: every cut c (file has c bytes, then is completed), + random multi-step scripts
-        cuts = range(total + 1) if total <= max_every else sorted(set(rng.sample(range(total + 1), max_every)) | {0, total})
+        if cutmode == "marks":
+            # every byte position at which the loop's behaviour can change (+-2): frame starts, header
+            # ends, every block boundary, frame ends, the offsets at which a guard using ANOTHER
+            # frame's data size would let the read go ahead, TRR_HEAD_SIZE; one position inside every
+            # header and block; + seeded random cuts
+            marks = layout_marks(frames, head, 2)
+            cuts = sorted(set(marks) | set(rng.sample(range(total + 1), min(total + 1, 40 if quick else 400))))
+        else:
+            marks = None
+            cuts = range(total + 1) if total <= max_every else sorted(set(rng.sample(range(total + 1), max_every)) | {0, total})
         scripts = [(c, total) if c < total else (total,) for c in cuts]
         nrand = 40 if quick else 200
         for _ in range(nrand):
             k = rng.randrange(2, 9)
-            scripts.append(tuple(sorted(rng.randrange(0, total + 1) for _ in range(k)) + [total]))
+            scripts.append(tuple(sorted((rng.choice(marks) if marks and rng.random() < 0.7 else rng.randrange(0, total + 1))
+                                        for _ in range(k)) + [total]))
         # frame-boundary +-1 scripts
         for fr in frames:
             for dlt in (-1, 0, 1):
@@ -833,6 +930,35 @@ def sched_positions(frames, head, width):
     return sorted(P)
 
 
+def sched_positions_nonuniform(frames, head, quick):
+    """Positions for files whose frames differ in size: for every threshold t the loop compares the
+    size with (TRR_HEAD_SIZE, every header end, every frame end) and every offset t at which a guard
+    using ANOTHER frame's data size would fire: t-1 and t (thorough: t+1 too); every block boundary
+    inside a data block (a read ending there gets 0 bytes for the next block, one byte earlier a
+    short block); the middle of every header and data block."""
+    total = frames[-1]["end"]
+    P = {0, total}
+    dss = sorted({fr["ds"] for fr in frames})
+    thr = [head]
+    for fr in frames:
+        start = fr["end"] - fr["ds"] - fr["hs"]
+        d0 = start + fr["hs"]
+        thr += [d0, fr["end"]] + [d0 + d for d in dss]
+        P.add(start + fr["hs"] // 2)
+        if fr["ds"] > 1:
+            P.add(fr["end"] - fr["ds"] // 2)
+        off = d0
+        for k in TRR_KEYS:
+            off += fr["sizes"][k]
+            if fr["sizes"][k] and off < fr["end"]:
+                P.add(off)
+    for t in thr:
+        for dlt in ((-1, 0) if quick else (-1, 0, 1)):
+            if 0 <= t + dlt <= total:
+                P.add(t + dlt)
+    return sorted(P)
+
+
 def sched_oracle(yielded, exn, w, frames, fin):
     """The literal statement on one finished run: None or what is wrong."""
     exp = [fr for fr in frames if fr["end"] <= fin]
@@ -905,6 +1031,11 @@ def run_trr_sched(ctx, runner, G, rng, tier, stats):
             for db in (False, True):
                 en = "<>"[(si + nf + db) % 2]
                 plans.append((en, db, na, nf, bl))
+    n_uniform = len(plans)
+    # frames of different data sizes: every pattern of positions only / + velocities / + forces
+    # over 2, 3 and 4 frames (see nonuniform_plans); the positions additionally contain every block
+    # boundary and the offsets at which a guard using another frame's data size would fire
+    plans += nonuniform_plans(quick, sched=True)
     H = SchedHarness(G)
     reqs, metas = [], []
     n_or_fail = n_early = 0
@@ -913,9 +1044,15 @@ def run_trr_sched(ctx, runner, G, rng, tier, stats):
             data, frames = gen_trr(rng, en, db, na, nf, bl)
             total = len(data)
             width = (2 if nf == 2 else 1) if quick else (3 if nf == 2 else 2)
-            P = sched_positions(frames, head, width)
-            desc = {"endian": en, "double": db, "natoms": na, "frames": nf, "blocks": list(bl), "bytes": total,
-                    "frame_bytes": frames[0]["end"], "header_bytes": frames[0]["hs"], "positions": len(P)}
+            if per_frame(bl):
+                P = sched_positions_nonuniform(frames, head, quick)
+            else:
+                P = sched_positions(frames, head, width)
+            desc = {"endian": en, "double": db, "natoms": na, "frames": nf,
+                    "blocks": [list(b) for b in bl] if per_frame(bl) else list(bl), "bytes": total,
+                    "frame_bytes": frames[0]["end"], "header_bytes": frames[0]["hs"], "positions": len(P),
+                    "frame_data_bytes": [fr["ds"] for fr in frames]}
+            ctx.dist("trr_sched:frame data sizes " + ("differ" if len({fr["ds"] for fr in frames}) > 1 else "uniform"))
             leaves, early, nstates = explore_schedules(H, data, frames, P)
             stats["sched_states"] += nstates
             ctx.dist(f"trr_sched:{'double' if db else 'single'}:{nf} frames", len(leaves))
